@@ -177,6 +177,67 @@ def decode_placeholders(data: bytes):
     return out
 
 
+def _tmux_forward(stream: bytes, st) -> bytes:
+    """one tmux instance: forward the bodies of `ESC P tmux; … ESC \\` wrappers, un-doubling ESC ESC;
+    a lone ESC inside a wrapper makes the wrapper malformed (dropped); bytes outside wrappers are not forwarded"""
+    out = bytearray()
+    i = 0
+    n = len(stream)
+    pre = b"\x1bPtmux;"
+    while i < n:
+        j = stream.find(pre, i)
+        if j < 0:
+            if stream[i:].strip(b"\r\n"):
+                st.malformed += 1
+            break
+        if stream[i:j].strip(b"\r\n"):
+            st.malformed += 1
+        k = j + len(pre)
+        body = bytearray()
+        ok = False
+        while k < n:
+            c = stream[k]
+            if c == 0x1B:
+                if k + 1 < n and stream[k + 1] == 0x1B:
+                    body.append(0x1B)
+                    k += 2
+                    continue
+                if k + 1 < n and stream[k + 1] == 0x5C:
+                    ok = True
+                    k += 2
+                break
+            body.append(c)
+            k += 1
+        if ok:
+            out += body
+            i = k
+        else:
+            st.malformed += 1
+            i = k + 1
+    return bytes(out)
+
+
+def _apc_codes(stream: bytes, st):
+    codes = []
+    i = 0
+    n = len(stream)
+    while i < n:
+        j = stream.find(b"\x1b_G", i)
+        if j < 0:
+            if stream[i:]:
+                st.malformed += 1
+            break
+        if stream[i:j]:
+            st.malformed += 1
+        e = stream.find(b"\x1b\\", j)
+        if e < 0:
+            st.malformed += 1
+            break
+        codes.append(stream[j:e + 2])
+        i = e + 2
+    return codes
+
+
 class SpecTerminal:
     """Feeds one terminal's command stream into the arrival log of Tup.Spec.Store."""
 
@@ -187,29 +248,21 @@ class SpecTerminal:
         self.partial = None    # inline transfer in progress
         self.pos = 0
         self.transmits = []    # (keys, payload) of first chunks / file commands, for the medium policy
+        self.malformed = 0     # wrappers / commands the terminal side could not make sense of (nothing arrives)
 
     def feed(self, data: bytes, now: int, on_transmit):
-        # split into escape codes
-        codes = []
-        rest = data
-        while rest:
-            if self.layers:
-                end = rest.index(b"\x1b\\", rest.index(b"\x1b\x1b\\") + 3) + 2 if False else None
-            # generic: an outermost code ends at the first ESC \ that is not preceded by ESC
-            k = 0
-            while True:
-                k = rest.index(b"\x1b\\", k)
-                # inside tmux wrappers inner ESC \ appears as ESC ESC \ (doubled ESC): count preceding ESCs
-                j = k
-                while j > 0 and rest[j - 1] == 0x1B:
-                    j -= 1
-                if (k - j) % 2 == 0:
-                    break
-                k += 1
-            codes.append(rest[: k + 2])
-            rest = rest[k + 2:]
+        # what reaches the real terminal behind `layers` tmux instances: each instance forwards the bodies of
+        # well-formed pass-through wrappers (ESC ESC -> ESC) and keeps everything else to itself
+        stream = bytes(data)
+        for _ in range(self.layers):
+            stream = _tmux_forward(stream, self)
+        codes = _apc_codes(stream, self)
         for code in codes:
-            keys, payload = parse_gfx(unwrap_tmux(code, self.layers))
+            try:
+                keys, payload = parse_gfx(code)
+            except Exception:
+                self.malformed += 1
+                continue
             a = keys.get("a")
             if a in ("t", "T", "q") or (a is None and ("m" in keys) and self.partial is not None):
                 pass
